@@ -285,10 +285,10 @@ class CaseTimeout(BaseException):
 
 # CPU seconds (ITIMER_PROF: process time, immune to a loaded machine) the implementation may spend on ONE case.
 # Ordinary cases take milliseconds; a node-level session that runs into a DIVERGE legitimately burns a whole
-# transaction budget (about 75 s), hence the larger allowance for `net` lines.  What this catches is a loop that
+# transaction budget (about 30 s), hence the larger allowance for `net` lines.  What this catches is a loop that
 # spins without touching the SPI bus, which the transaction budget of harness/simradio.py cannot see.
 CASE_CPU_BUDGET = 60.0
-CASE_CPU_BUDGET_NET = 300.0
+CASE_CPU_BUDGET_NET = 150.0
 
 
 def _on_sigprof(*_):
